@@ -63,7 +63,12 @@ def nshards(tier):
     return 16
 
 
+RT_TYPES = ('clock', 'start', 'continue', 'stop')
+
+
 def make_msg(s, q, kind):
+    if kind == 3:
+        return Message(RT_TYPES[q])      # a real-time message: identified by its type, sent once
     if kind == 0:
         return Message('note_on', channel=s, note=q, velocity=100)
     if kind == 1:
@@ -148,6 +153,19 @@ def receiver(rec, tid, port, pname, plan):
                         rec.exc(tid, 'receive', pname, exc)
                         continue
                     rec.ret(tid, 'receive', pname, m)
+            elif step[0] == 'iter_pending_first':
+                # take one message from iter_pending() and abandon the generator
+                rec.call(tid, 'iter_pending', pname)
+                try:
+                    g = port.iter_pending()
+                    m = next(g, None)
+                    rec.ret(tid, 'iter_pending', pname, m)
+                    if hasattr(g, 'close'):
+                        g.close()
+                except sched.SchedAbort:
+                    raise
+                except Exception as exc:
+                    rec.exc(tid, 'iter_pending', pname, exc)
             else:
                 rec.call(tid, 'iter_pending', pname)
                 try:
@@ -194,7 +212,7 @@ class P1Wire(Program):
         self.ports = {'w': p}
         self.wires = [self.wire]
         self.route = lambda pname: ['w']
-        return [sender(rec, 0, p, 'w', 0, (0, 1), (0, 1)), sender(rec, 1, p, 'w', 1, (0, 1), (1, 0)),
+        return [sender(rec, 0, p, 'w', 0, (0, 1), (0, 1)), sender(rec, 1, p, 'w', 1, (0, 1, 1), (3, 1, 3)),
                 receiver(rec, 2, p, 'w', [('poll', 3, 9)])]
 
 
@@ -223,7 +241,7 @@ class P3IOPort(Program):
         self.keep = (i, o)
         self.wires = [self.wire]
         self.route = lambda pname: ['io']
-        return [sender(rec, 0, p, 'io', 0, (0, 1), (0, 1)), sender(rec, 1, p, 'io', 1, (0, 1), (2, 0)),
+        return [sender(rec, 0, p, 'io', 0, (0, 1), (0, 1)), sender(rec, 1, p, 'io', 1, (2, 0), (3, 2)),
                 receiver(rec, 2, p, 'io', [('poll', 3, 2)]), receiver(rec, 3, p, 'io', [('receive', 1)])]
 
 
@@ -266,7 +284,8 @@ class P5IterPending(Program):
         self.ports = {'w': p}
         self.wires = [self.wire]
         self.route = lambda pname: ['w']
-        return [sender(rec, 0, p, 'w', 0, (0, 1, 2), (0, 1, 2)), receiver(rec, 1, p, 'w', [('iter_pending',)] * 2),
+        return [sender(rec, 0, p, 'w', 0, (0, 1, 2), (0, 1, 2)),
+                receiver(rec, 1, p, 'w', [('iter_pending_first',), ('iter_pending',)]),
                 receiver(rec, 2, p, 'w', [('iter_pending',)] * 2)]
 
 
